@@ -35,7 +35,7 @@ class SymF:
                 c.assume.append(v >= lo)
             if hi is not None:
                 c.assume.append(v <= hi)
-        return Sym(v)
+        return Sym.var(v)
 
     def reals(self, name, shape, lo=-8, hi=8):
         if isinstance(shape, int):
@@ -85,7 +85,7 @@ class SymF:
             c.inputs[name] = ("int", v)
             c.assume.append(v >= lo)
             c.assume.append(v <= hi)
-        return Sym(z3.ToReal(v))
+        return Sym.var(z3.ToReal(v))
 
     def assume(self, cond):
         core.ctx().assume.append(bterm(cond))
@@ -102,7 +102,7 @@ class SymF:
 
     def ite(self, c, a, b):
         if isinstance(c, SymB):
-            return Sym(z3.If(c.t, core.lift(a), core.lift(b)))
+            return Sym.var(z3.If(c.t, core.lift(a), core.lift(b)))
         return a if c else b
 
     def and_(self, *cs):
@@ -126,7 +126,8 @@ class SymF:
     def eq(self, a, b):
         """non-forking equality -> SymB|bool"""
         if isinstance(a, Sym) or isinstance(b, Sym):
-            return SymB(core.eqz(a, b))
+            r = Sym.of(a) == b
+            return r
         return a == b
 
     def sqrt(self, x):
@@ -148,7 +149,7 @@ class SymF:
             core.ctx().defined.append(v >= lo)
         if hi is not None:
             core.ctx().defined.append(v <= hi)
-        return Sym(v)
+        return Sym.var(v)
 
 
 class ConcF(SymF):
@@ -250,12 +251,12 @@ class SymOb:
             if not isinstance(d, Sym):
                 d = Sym.of(d)
             if tol is None:
-                self._add(nm, d.n == 0, "eq", d)
+                self._add(nm, d.sign_term("eq"), "eq", d)
             else:
                 bound = Sym.of(abs(Sym.of(y)) + 1) * tol
                 dd = abs(d) - bound
                 dd = Sym.of(dd)
-                self._add(nm, dd.sgn_expr() <= 0, "eqtol", d)
+                self._add(nm, dd.sign_term("le"), "eqtol", d)
 
     def le(self, name, a, b):
         self.true(name, _le(a, b))
@@ -268,7 +269,7 @@ def _le(a, b):
     if isinstance(a, Sym) or isinstance(b, Sym):
         d = Sym.of(a) - b
         d = Sym.of(d)
-        return SymB(d.sgn_expr() <= 0)
+        return SymB(d.sign_term("le"))
     return a <= b
 
 
@@ -276,7 +277,7 @@ def _lt(a, b):
     if isinstance(a, Sym) or isinstance(b, Sym):
         d = Sym.of(a) - b
         d = Sym.of(d)
-        return SymB(d.sgn_expr() < 0)
+        return SymB(d.sign_term("lt"))
     return a < b
 
 
